@@ -153,3 +153,26 @@ def test_d30_copy_of_h5_loaded_frame(tmp_path):
     ld = stg.Frame(waterfall=fn)
     cp = ld.copy()
     assert np.array_equal(cp.data, ld.data) and np.array_equal(cp.fs, ld.fs)
+
+
+def test_d32_pfb_cache_is_not_a_view_of_the_callers_buffer():
+    M, P = 2, 8
+    rng = np.random.default_rng(5)
+    chunks = [rng.normal(size=4 * P) for _ in range(3)]
+    one = sv.PolyphaseFilterbank(num_taps=M, num_branches=P)
+    want = np.asarray(one.channelize(np.concatenate(chunks)))
+    fb = sv.PolyphaseFilterbank(num_taps=M, num_branches=P)
+    buf = np.empty(4 * P)
+    outs = []
+    for ch in chunks:
+        buf[:] = ch                      # the caller refills ONE buffer, as a streaming reader does
+        outs.append(np.array(fb.channelize(buf)))
+    assert np.allclose(np.concatenate(outs), want, rtol=1e-12, atol=1e-12)
+
+
+def test_d33_constant_samples_have_zero_deviation():
+    from setigen.voltage import data_stream
+    m, s = data_stream.estimate_stats(np.full(3, 0.1), stats_calc_num_samples=3)
+    assert s == 0 and m == 0.1
+    q = sv.RealQuantizer(target_fwhm=32, num_bits=8)
+    assert np.all(np.asarray(q.quantize(np.full(3, 0.1))) == 0)      # target mean, not -/+ target deviation
